@@ -48,6 +48,13 @@ def variants(sc, b):
                 sc0['connect_kwargs'][k] = 0
         if sessprop.sampled(sc, b, 3):
             out.append(('=zero-instead-of-none', sc0))
+    if sessprop.sampled(sc, b, 4):
+        scq = copy.deepcopy(sc)
+        scq['tick'] = 0.25           # one tick = 0.25 s: poll 0.5 / 0.75 s, ping_rate 1.25 s ... (dyadic, so float arithmetic stays exact)
+        for k in ('poll', 'ping_rate', 'ping_timeout', 'close_timeout'):
+            if scq['connect_kwargs'].get(k):
+                scq['connect_kwargs'][k] = scq['connect_kwargs'][k] * 0.25
+        out.append(('=quarter-second-ticks', scq))
     steps = sc['conns'][0]['steps']
     if any(s['kind'] == 'data' and s.get('items') for s in steps[1:]):
         sc2 = copy.deepcopy(sc)
